@@ -365,6 +365,57 @@ def check_estimate(fx, R, cq, cname, f, tag):
                         elif isinstance(r_, sp.Equality) and r_.rhs.is_Symbol and r_.lhs.is_number:
                             sub[r_.rhs] = r_.lhs
                 return sub
+            # a path that drops the row under a test on the INDEXES of the correspondence: legitimate only for indexes outside the sets; the test is evaluated on valid correspondences
+            def index_guard(st_):
+                syms_ = set()
+                for c in st_.cond:
+                    if isinstance(c[1], sp.Basic):
+                        syms_ |= c[1].free_symbols
+                return bool(syms_) and all(('PointIndex' in y_.name or y_.name.startswith('size(') or y_.name in ('arg:sourcePoints', 'arg:targetPoints', 'arg:targetPointsNormals', 'arg:correspondences'))
+                                           for y_ in syms_)
+            dropped_by_index = []
+            for x_ in list(states):
+                written = {k_[1]: v_ for k_, v_ in x_.fields.items() if k_[0] == 'loc' and k_[1].startswith('J[')}
+                if not (written and all(v_ == 0 for v_ in written.values()) and index_guard(x_)):
+                    continue
+                desc_ = ' && '.join(('' if c[2] else '!') + '(' + str(c[1])[:150] + ')' for c in x_.cond)
+                hit = None
+                for (ns_, nt_, cs_, ct_) in ((30, 80, 5, 50), (80, 30, 50, 5), (40, 40, 39, 39), (3, 3, 0, 2)):
+                    len_ = 3
+                    sub_ = {}
+                    for c in x_.cond:
+                        for y_ in (c[1].free_symbols if isinstance(c[1], sp.Basic) else ()):
+                            nm_ = y_.name
+                            sub_[y_] = sp.Integer(cs_ if 'sourcePointIndex' in nm_ else ct_ if 'targetPointIndex' in nm_ else ns_ if ('size(' in nm_ and 'source' in nm_.lower()) else nt_ if 'size(' in nm_ else 0)
+                    taken = True
+                    fsub_ = {}
+                    for c in x_.cond:
+                        for a_ in (c[1].atoms(sp.core.function.AppliedUndef) if isinstance(c[1], sp.Basic) else ()):
+                            if str(a_.func) == 'size' and len(a_.args) == 1:
+                                fsub_[a_] = sp.Integer(ns_ if 'source' in str(a_.args[0]).lower() else len_ if 'correspondences' in str(a_.args[0]) else nt_)
+                    for c in x_.cond:
+                        v_ = c[1].subs(fsub_).subs(sub_) if isinstance(c[1], sp.Basic) else None
+                        if v_ not in (sp.true, sp.false):
+                            taken = None
+                            break
+                        if bool(v_) != c[2]:
+                            taken = False
+                            break
+                    if taken:
+                        hit = hit or (ns_, nt_, cs_, ct_)
+                    if taken is None:
+                        hit = None
+                        break
+                dropped_by_index.append(x_)
+                if hit:
+                    R.violated('P1', inst + ':row:dropped-valid-correspondence', 'on the path [%s] the row of the correspondence is zeroed and its residual set to 0, i.e. the correspondence is dropped.  With %d source points '
+                               'and %d target points the correspondence (source %d, target %d) - both indexes inside their sets - takes that path: valid correspondences are silently ignored whenever the two sets '
+                               'differ in size (a bound of one set is applied to an index into the other), so the parameters returned do not satisfy the normal equations of the list that was given%s' % (
+                                   desc_[:260], hit[0], hit[1], hit[2], hit[3], ptag), loc, 'E-ALG')
+                else:
+                    R.holds('P1', inst + ':row:index-guard' + ptag, 'a row is dropped only for indexes outside the sets (evaluated on valid correspondences of sets of different sizes)', loc, 'E-ALG')
+            if dropped_by_index:
+                states = [x_ for x_ in states if x_ not in dropped_by_index]
             generic = [x_ for x_ in states if not eqs_of(x_)]
             for x_ in [y_ for y_ in states if eqs_of(y_)]:
                 desc_ = ' && '.join(('' if c[2] else '!') + '(' + c[0] + ')' for c in x_.cond)
@@ -533,9 +584,45 @@ def check_precond(fx, R, cq, cname):
             want = [('return', ('.estimate_', 'this', 'sourcePoints', 'targetPoints', 'targetPointsNormals') + (('correspondences',) if withc else ()))]
         inst = 'FindRigidTransformationByLeastSquares::find/%s%s [%s]' % ('preconditioned' if pre else 'raw', '+corr' if withc else '', cname)
         rescale = [x for x in s_ if x[0] == 'expr' and isinstance(x[1], tuple) and x[1][0] in ('/=', '*=') and 'getPreconditioningMatrix' in str(x[1][2]) and '.block' in str(x[1][1])]
+        bypass = index_list_bypass(fx, g) if (withc and s_ != want) else None
         R.form(s_ == want, 'P4', inst, 'delegation idiom not recognised: %s' % (s_,), 'delegates unchanged', fx.rel(g['loc']), 'E-SIB',
-               facts=[(pre and bool(rescale) and ok, 'this overload rescales the translation block itself (%s), but this estimator already un-scales the translation parameters through the solver matrix Ac installed by '
+               facts=[(bool(bypass), bypass or ''),(pre and bool(rescale) and ok, 'this overload rescales the translation block itself (%s), but this estimator already un-scales the translation parameters through the solver matrix Ac installed by '
                        'setPreconditioner(): the translation is compensated twice (t/s instead of t), unlike the index-based overload' % (rescale[0][1] if rescale else '',))])
+
+
+def index_list_bypass(fx, g):
+    """The overload that takes a correspondence list is run (E-STEP: concrete lists, sizes and iterators) on witness lists; the call it ends with must be handed the list.  Returns the text of a
+    fact when, for a list that is NOT the identity pairing, the overload ends in a call that does not receive the list (the aligned estimator pairs point n with point n); None otherwise."""
+    from .. import mini
+    names = [p_['name'] for p_ in g['params']]
+    if len(names) != 4:
+        return None
+    wit = [('full length, both ends in place, interior permuted', 5, 5, [(0, 0), (2, 1), (1, 2), (3, 3), (4, 4)]),
+           ('full length, reversed', 4, 4, [(0, 3), (1, 2), (2, 1), (3, 0)]),
+           ('a sub-list', 6, 6, [(0, 1), (2, 3), (4, 5)]),
+           ('target set larger than the source set', 3, 7, [(0, 4), (1, 5), (2, 6)])]
+    for (what, ns, nt, lst) in wit:
+        S_ = mini.list_hooks(mini.Step(deep_unwrap))
+        calls = []
+
+        def record(t, env, calls=calls):
+            calls.append(tuple(t[2:]))
+            return 0
+        S_.hooks['.estimate_'] = record
+        S_.hooks['.find'] = record
+        env = {names[0]: list(range(ns)), names[1]: list(range(nt)), names[2]: list(range(nt)),
+               names[3]: [{'sourcePointIndex': a_, 'targetPointIndex': b_, 'squareDistance': 0.0, 'weight': 1.0} for (a_, b_) in lst]}
+        try:
+            S_.call(g['body'], env)
+        except (mini.Unsupported, TypeError, KeyError, IndexError):
+            return None
+        if len(calls) != 1:
+            return None
+        if names[3] not in [a_ for a_ in calls[0] if isinstance(a_, str)]:
+            return ('for the correspondence list %s (%s; %d source and %d target points) this overload ends in a call that is not given the list (%s): the estimator then pairs point n with point n, not the pairs of the '
+                    'list - index-based and aligned correspondences no longer give the same answer, and the parameters returned do not satisfy the normal equations of the given pairing' % (
+                        lst, what, ns, nt, ', '.join(str(a_) for a_ in calls[0])))
+    return None
 
 
 def prune_fn(f):
